@@ -24,6 +24,7 @@ func TestC05BitcoinHtlcExpiresBeforeRefund(t *testing.T) {
 	rapid.Check(t, func(t *rapid.T) {
 		lnd := rapid.Bool().Draw(t, "lnd")
 		out := rapid.Bool().Draw(t, "swapOut")
+		sim.CaseStart(t)
 		s := newTakerScenario("btc", out, lnd)
 		defer s.W.Close()
 		if err := s.A.Boot(); err != nil {
